@@ -278,6 +278,23 @@ Section Gather.
         * intros (x & c & Hin & H1 & H2). exists x, c. auto.
         * intros (x & c & [->|Hin] & H1 & H2); [congruence|]. exists x, c. auto.
   Qed.
+
+  (* input order is compositional: the yields of a concatenated input are the
+     yields of its parts, concatenated; and never more than one per awaitable *)
+  Lemma expected_app only aws1 aws2 :
+    expected inst only (aws1 ++ aws2) = expected inst only aws1 ++ expected inst only aws2.
+  Proof.
+    induction aws1 as [|a r IH]; simpl; [reflexivity|].
+    destruct (aout a) as [|c0 e0]; [exact IH|].
+    destruct (inst c0 only); simpl; now rewrite IH.
+  Qed.
+
+  Lemma expected_length only aws : (length (expected inst only aws) <= length aws)%nat.
+  Proof.
+    induction aws as [|a r IH]; simpl; [apply le_n|].
+    destruct (aout a) as [|c0 e0]; [now apply le_S|].
+    destruct (inst c0 only); simpl; [now apply le_n_S|now apply le_S].
+  Qed.
 End Gather.
 
 (* ---- isinstance over a forest --------------------------------------------- *)
